@@ -158,6 +158,8 @@ type Ticket struct {
 	Realm string
 	SName Name
 	Enc   EncData
+	// Trailing is raw DER appended inside the ticket's SEQUENCE after enc-part (not part of RFC 4120: for hostile encodings).
+	Trailing []byte
 }
 
 // DER encodes the Ticket ([APPLICATION 1]).
@@ -166,7 +168,7 @@ func (t Ticket) DER() []byte {
 	if vno == 0 {
 		vno = 5
 	}
-	return der.App(1, der.Seq(der.Ctx(0, der.Int(int64(vno))), der.Ctx(1, der.GenString(t.Realm)), der.Ctx(2, t.SName.DER()), der.Ctx(3, t.Enc.DER())))
+	return der.App(1, der.Seq(der.Ctx(0, der.Int(int64(vno))), der.Ctx(1, der.GenString(t.Realm)), der.Ctx(2, t.SName.DER()), der.Ctx(3, t.Enc.DER()), t.Trailing))
 }
 
 // EncTicketPart is the sealed part of a ticket.
@@ -193,7 +195,10 @@ func optTime(tag int, t *time.Time) []byte {
 }
 
 // DER encodes EncTicketPart ([APPLICATION 3]).
-func (e EncTicketPart) DER() []byte {
+func (e EncTicketPart) DER() []byte { return der.App(3, e.SeqDER()) }
+
+// SeqDER is the SEQUENCE of EncTicketPart without its [APPLICATION 3] tag.
+func (e EncTicketPart) SeqDER() []byte {
 	var caddr, ad []byte
 	if e.CAddr != nil {
 		caddr = der.Ctx(9, AddrsDER(e.CAddr))
@@ -201,7 +206,7 @@ func (e EncTicketPart) DER() []byte {
 	if e.AuthzData != nil {
 		ad = der.Ctx(10, ADsDER(e.AuthzData))
 	}
-	return der.App(3, der.Seq(
+	return der.Seq(
 		der.Ctx(0, der.Flags32(e.Flags)),
 		der.Ctx(1, e.Key.DER()),
 		der.Ctx(2, der.GenString(e.CRealm)),
@@ -211,7 +216,7 @@ func (e EncTicketPart) DER() []byte {
 		optTime(6, e.StartTime),
 		der.Ctx(7, der.GenTime(e.EndTime)),
 		optTime(8, e.RenewTill),
-		caddr, ad))
+		caddr, ad)
 }
 
 // Authenticator (RFC 4120 5.5.1).
